@@ -28,7 +28,8 @@ RULE = (
     "to depth 3 (quick) / 4 (thorough) are run on both backends, in two pacing modes (quiesce between commands / feed "
     "the next command as soon as the previous one completed) and with an immediate and a slow consumer; seeded random "
     "sequences to depth 40 with subscription_limit in {1,2,3}, non-string ids and duplicates on top; plus REQs whose stored-events "
-    "query fails while it runs (SQL: rows that cannot be decoded, connection pool exhausted; LMDB: damaged records). Non-trivial = a "
+    "query fails while it runs (SQL: rows that cannot be decoded, connection pool exhausted; LMDB: damaged records), and a quick "
+    "series of 90-300 REQs in one process with default settings (LMDB analysis queue backlog). Non-trivial = a "
     "sequence with at least one REQ followed by CLOSE / replacement / disconnect or hitting the limit. Distinct = "
     "distinct (backend, pacing, consumer, symbol sequence)."
 )
@@ -38,7 +39,7 @@ ASSUMPTIONS = [
     "LMDB backend over /verif/shim; SQL = SQLite",
 ]
 MIN_NONTRIVIAL = {"quick": 800, "thorough": 8000}
-REQUIRED_COUNTERS = ["clause.eose", "clause.refused_notice", "clause.after_close", "clause.limit", "clause.after_exit", "clause.answered_despite_fault"]
+REQUIRED_COUNTERS = ["clause.eose", "clause.refused_notice", "clause.after_close", "clause.limit", "clause.after_exit", "clause.answered_despite_fault", "clause.answered_in_burst"]
 SHARD_TIMEOUT = {"quick": 600, "thorough": 3200}
 
 F1 = {"kinds": [1]}
@@ -61,6 +62,7 @@ def plan(tier, seed):
         for i in range(2 if tier == "quick" else 8):
             shards.append({"mode": "random", "backend": backend, "case_seed": seed * 7919 + i, "n": 40 if tier == "quick" else 200})
         shards.append({"mode": "fault", "backend": backend, "case_seed": seed * 7919, "n": 2 if tier == "quick" else 10})
+        shards.append({"mode": "burst", "backend": backend, "case_seed": seed * 7919, "n": 90 if tier == "quick" else 300})
     return shards
 
 
@@ -375,6 +377,38 @@ async def run_faulty_queries(backend, counters, seed):
     return viols, nontrivial
 
 
+async def run_req_burst(backend, counters, seed, n=90):
+    """
+    Many REQs in a short time in ONE process with the relay's default settings (the query-analysis queue of
+    the LMDB backend holds 30 plans and is drained at two per second): each of them is answered.
+    """
+    viols, nontrivial = [], []
+    rig = R.Rig(backend=backend, config={})  # default analysis_delay
+    await rig.start()
+    clause = counters.setdefault("clause", {})
+    try:
+        conn = rig.connect("burst")
+        key = ref.key_from_seed("c13-burst")
+        evs = [ref.make_event(key, kind=1, created_at=gen.T0 + i, content="b%d %d" % (i, seed)) for i in range(5)]
+        await qcore.load_store(rig, conn, evs)
+        for i in range(n):
+            ans = await qcore.run_req(rig, conn, [{"kinds": [1]}] if i % 3 else [{"kinds": [1]}, {"authors": [key.pk]}], timeout=10.0)
+            clause["answered_in_burst"] = clause.get("answered_in_burst", 0) + 1
+            counters["sequences"] = counters.get("sequences", 0) + 1
+            if not ans["eose"] and not ans["notices"]:
+                viols.append({"key": "%s/silence-in-burst" % backend, "msg": "[%s] REQ number %d of a quick series (default settings) got %d events and then neither EOSE nor NOTICE within 10 s"
+                              % (backend, i + 1, len(ans["events"])), "replay": {"backend": backend, "mode": "burst", "seed": seed}})
+                break
+            if ans["eose"] and len({e.get("id") for e in ans["events"]}) != 5:
+                viols.append({"key": "%s/incomplete-answer-in-burst" % backend, "msg": "[%s] REQ number %d of a quick series got EOSE after %d of 5 stored events"
+                              % (backend, i + 1, len(ans["events"])), "replay": {"backend": backend, "mode": "burst", "seed": seed}})
+                break
+        nontrivial.append(h([backend, "burst", n, seed]))
+    finally:
+        await rig.close()
+    return viols, nontrivial
+
+
 def random_seq(r, n):
     ids = ["a", "b", "c", 5, None, "a\"b", ""]
     out = []
@@ -394,7 +428,11 @@ def random_seq(r, n):
 
 def run_shard(spec):
     counters = {}
-    if spec["mode"] == "fault":
+    if spec["mode"] == "burst":
+        # its own process: the LMDB analysis thread keeps the delay it was started with
+        samples = []
+        viols, nontrivial = R.run(run_req_burst, spec["backend"], counters, spec["case_seed"], spec["n"])
+    elif spec["mode"] == "fault":
         viols, nontrivial, samples = [], [], []
         for j in range(spec["n"]):
             v, nt = R.run(run_faulty_queries, spec["backend"], counters, spec["case_seed"] + j)
@@ -426,6 +464,9 @@ def run_shard(spec):
 
 def replay(rp, spec):
     counters = {}
+    if rp.get("mode") == "burst":
+        v, nt = R.run(run_req_burst, rp["backend"], counters, rp["seed"])
+        return {"evaluations": 1, "nontrivial": nt, "counters": counters, "violations": v, "samples": [], "inconclusive": []}
     if rp.get("mode") == "fault":
         v, nt = R.run(run_faulty_queries, rp["backend"], counters, rp["seed"])
         return {"evaluations": 1, "nontrivial": nt, "counters": counters, "violations": v, "samples": [], "inconclusive": []}
